@@ -23,6 +23,7 @@ FIXED = {  # commit subject prefix -> (property, key, what failed)
  "fix: the proxy ignores envelopes without a header": ("C17", "proxy-spoof-panic", "envelope without header or with a source other than the sender's attached name: log.Panic kills the proxy"),
  "fix: proxy peer loops no longer block forever": ("C17", "proxy-cancel-leak", "after the proxy context is cancelled every peer read loop (and failing write loops/dials) stays blocked sending its error to the exited forwarding loop"),
  "fix: a failing old connection no longer removes": ("C17", "proxy-reattach-forgets-new", "peer re-attaches under its name, the old connection fails, the proxy deletes the new registration"),
+ "fix: Demux.Cancel and Stop no longer panic": ("C18", "demux-cancel-close", "Cancel(key) while the run loop is parked handing an envelope to that key (or a writer is parked / writes afterwards): send on closed channel; Stop with the run loop parked on a hand-off never returns"),
  "fix: stream teardown unregisters before": ("C13", "teardown-rst-vs-dispatch", "transport failed, dispatch parked on the stream's full channel holds the mutex, teardown's reset write needs it: deadlock"),
 }
 KNOWN = [
